@@ -148,7 +148,8 @@ def make_case(idl, config, optset, targets, clean, shape="generate", top=None, l
         args += ["--config", config]
     sem = {"top_ok": top is None and log in (None, "debug", "info", "warn", "error", "DEBUG"), "options": texts,
            "opt_dict": ref_fold(leaves) if leaves is not None else None,
-           "config": config if config is not None else "pydjinni.yaml", "idl": idl, "clean": clean, "targets": targets, "shape": shape}
+           "config": config if config is not None else "pydjinni.yaml", "idl": idl, "clean": clean, "targets": targets, "shape": shape,
+           "debug": (log or "").lower() == "debug"}
     if shape == "no-command":
         sem["command"] = {"kind": "none"}
     elif shape == "unknown-command":
@@ -215,6 +216,7 @@ def build_cases(ctx):
     cases.append(make_case("ok.djinni", "syntax.yaml", none, ["cpp"], False, top="--nonsense"))
     cases.append(make_case("ok.djinni", None, none, ["cpp"], False, log="loud"))
     cases.append(make_case("ok.djinni", None, none, ["cpp"], False, log="debug"))
+    cases.append(make_case("kw.djinni", None, none, ["cpp", "bogus"], True, log="debug"))
     cases.append(make_case("syn.djinni", None, none, ["bogus"], False))
     cases.append(make_case("syn.djinni", "javaonly.yaml", none, ["java"], False))
     cases.append(make_case("ok.djinni", None, none, ["cpp"], False, extra_env={"pydjinni__generate__yaml__out": "out/envyaml"}))
@@ -281,7 +283,7 @@ def run_case(base: Path, case: dict) -> dict:
     try:
         p = subprocess.run([PY, "-m", "pydjinni", *case["args"]], cwd=cli, env=env, capture_output=True, text=True, timeout=120)
         obs = {"rc": p.returncode, "traceback": "Traceback (most recent call last)" in p.stderr or "Traceback (most recent call last)" in p.stdout,
-               "stderr": p.stderr[-600:], "stdout": p.stdout[-400:]}
+               "stderr": p.stderr[-600:], "stdout": p.stdout[-2500:]}
     except subprocess.TimeoutExpired:
         obs = {"rc": None, "traceback": False, "stderr": "timeout", "stdout": ""}
     obs["tree"] = tree_of(cli)
@@ -320,6 +322,13 @@ def run_case(base: Path, case: dict) -> dict:
                 c = stage("configure", lambda: API().configure(path=path, options=copy.deepcopy(sem["opt_dict"])))
                 if reach_parse:
                     g = stage("parse", lambda: c.parse(Path(sem["idl"])))
+                    if sem.get("debug"):
+                        # `--log-level debug`: the generate callback pretty-prints the AST, which evaluates the marshalling
+                        from rich.pretty import pretty_repr
+                        try:
+                            stage("astdump", lambda: pretty_repr(g.ast))
+                        except BaseException:  # noqa  (the API sequence itself has no such step: carry on)
+                            pass
                 if reach_generate:
                     for t in cmd["targets"]:
                         stage("generate:" + t, lambda: g.generate(t, clean=sem["clean"]))
@@ -410,8 +419,10 @@ def model_request(case: dict, obs: dict) -> dict:
              "kinds": IDLS.get(idl, ("", []))[1],
              "gen_fail": gen_fail, "report": bool(obs["api"].get("report")),
              "env": cfgsys.decode_env(case.get("env")), "dotenv": []}
+    if "astdump" in stages:
+        world["ast_dump"] = raised_of(stages["astdump"])
     return {"op": "c19.run", "top_ok": sem["top_ok"], "options": sem["options"], "config": c17.classify_file(fspec),
-            "command": sem["command"], "world": world}
+            "command": sem["command"], "world": world, "debug": bool(sem.get("debug"))}
 
 
 def run(ctx):
@@ -537,8 +548,9 @@ def evaluate(ctx, case, obs, m, sq, s, breaks):
             if not keys <= want or (keys != want and IDLS.get(sem['idl'], ('', []))[1]):
                 breaks.append({"what": "c19.run generated events vs report sections", "args": case["args"], "model": sorted(want), "impl": sorted(keys)})
     # model API stages vs in-process API outcome
-    if m.get("api") and obs["api"]["stages"] and (obs["api"]["stages"][-1]["kind"] != "ok" or obs["api"]["stages"][-1]["stage"] == "report"):
-        first_impl = next((raised_of(x) for x in obs["api"]["stages"] if x["kind"] != "ok"), None)
+    pure = [x for x in obs["api"]["stages"] if x["stage"] != "astdump"]
+    if m.get("api") and pure and (pure[-1]["kind"] != "ok" or pure[-1]["stage"] == "report"):
+        first_impl = next((raised_of(x) for x in pure if x["kind"] != "ok"), None)
         fm = m["api"]["first"]
         same = (fm is None and first_impl is None) or (fm is not None and first_impl is not None and fm["kind"] == first_impl["kind"]
                                                          and fm.get("code") == first_impl.get("code") and fm.get("codes") == first_impl.get("codes"))
@@ -564,6 +576,12 @@ def evaluate(ctx, case, obs, m, sq, s, breaks):
         if sem["command"]["kind"] == "generate" and any(k for k in obs["tree"] if not k.endswith("stale.txt")):
             ctx.report("cli:malformed-command-line-wrote-files", "a refused command line wrote output files", {**rep, "impl": brief(obs), "files": list(obs["tree"])[:10]})
         return
+    if obs["rc"] in (150, 161, 170):
+        import re as _re
+        text = obs["stdout"] + obs["stderr"]
+        if sem["idl"] not in text or not _re.search(r"at \(\d+, \d+\)", text):
+            ctx.report("cli:diagnostic-without-position", f"the message for status {obs['rc']} does not name the IDL file and a (line, column) position",
+                       {**rep, "impl": brief(obs), "stdout": obs["stdout"][-600:]})
     if not s["holds"]:
         ctx.report("cli:exit-status", f"exit status {obs['rc']} is not the documented code of the first error of the equivalent API sequence "
                    f"({sq['first']})", {**rep, "impl": brief(obs), "spec": sq})
